@@ -255,7 +255,9 @@ function familyT (tier, opts = {}) {
 // closed by parentheses (short-circuiting stops there). Only chains holding a configured method are kept.
 const H_LINKS = {
   prop: (q) => q + 'q', trim: (q) => q + 'trim()', concat: (q) => q + 'concat(a)', key: (q) => (q === '.' ? '' : q) + '[k]',
-  call: (q) => (q === '.' ? '' : q) + '(b)', method: (q) => q + 'm(b)', length: (q) => q + 'length'
+  call: (q) => (q === '.' ? '' : q) + '(b)', method: (q) => q + 'm(b)', length: (q) => q + 'length',
+  // a computed key that holds an optional chain of its own
+  chainkey: (q) => (q === '.' ? '' : q) + '[o?.p]'
 }
 function familyH (tier, opts = {}) {
   const L = opts.L || (tier === 'thorough' ? 4 : 3)
@@ -305,19 +307,19 @@ function familyQ (tier, opts = {}) {
 
 // R: `+=` targets. target := base access{0..2}, wrapped in 0..2 pairs of parentheses, x right-hand sides
 const R_BASES = { x: 'x', o: 'o', call: 'g()', this: 'this', args: 'arguments', sup: 'super' }
-const R_ACCESS = ['.p', '[k]', '[f()]', '[i++]', '.q', "['p']", '[(f(), k)]']
+const R_ACCESS = ['.p', '[k]', '[f()]', '[i++]', '.q', "['p']", '[(f(), k)]', '[a + b]', '[s.trim()]']
 function familyR (tier, opts = {}) {
   const leaves = []
   const stats = { states: 1, transitions: 0 }
   // right-hand sides include every form that binds looser than `+` (they become an operand of the synthesised `T + R`)
-  const rhs = tier === 'thorough' ? ['b', 'f()', "'lit'", 'a + b', '`${a}`', 'q => q', 'async q => q', 'c ? a : b', 'y = b', 'y ||= b', 'function () {}', 'class {}', 'a ?? b', 'a || b'] : ['b', 'f()', 'a + b', 'q => q', 'c ? a : b', 'y = b']
+  const rhs = opts.rhs ? opts.rhs : tier === 'thorough' ? ['b', 'f()', "'lit'", 'a + b', '`${a}`', 'q => q', 'async q => q', 'c ? a : b', 'y = b', 'y ||= b', 'function () {}', 'class {}', 'a ?? b', 'a || b'] : ['b', 'f()', 'a + b', 'q => q', 'c ? a : b', 'y = b']
   const targets = []
   for (const [bn, b] of Object.entries(R_BASES)) {
     if (bn === 'x') targets.push([bn, b])
     for (const a1 of R_ACCESS) {
       if (a1 === '.q') continue
       targets.push([bn, b + a1])
-      for (const a0 of ['.q', '[k]', '[f()]']) if (bn !== 'sup' && bn !== 'args') targets.push([bn, b + a0 + a1])
+      for (const a0 of ['.q', '[k]', '[f()]', '[a + b]', '[`${a}`]']) if (bn !== 'sup' && bn !== 'args') targets.push([bn, b + a0 + a1])
     }
   }
   for (const [bn, t] of targets) {
